@@ -19,7 +19,7 @@ from prosemirror.transform.doc_attr_step import DocAttrStep
 
 from .. import core, gen, ops, schemas
 from ..core import outcome
-from . import c04_guard
+from . import c04_guard, c04_marks
 
 SINGLE_UNDO = (ReplaceStep, ReplaceAroundStep, AttrStep, DocAttrStep, AddNodeMarkStep, RemoveNodeMarkStep)
 
@@ -107,6 +107,9 @@ def run(ctx):
                 continue
             if op == "aroundGuards":
                 c04_guard.compare_around(ctx, replay, payload, out)
+                continue
+            if op == "markUndoGuards":
+                c04_marks.compare(ctx, replay, payload, out)
                 continue
             info, doc, res_doc, impl_ok = payload
             if "ok" not in out:
@@ -204,10 +207,15 @@ def run(ctx):
                                displaced_marks=displaced(tr.steps[k], tr.docs[k]) if tr.steps else None,
                                node_mark=node_mark_info(tr.steps[k], tr.docs[k]) if tr.steps else None))
         # every single recorded step also undoes exactly (it is a step emitted by a high-level operation)
+        owner = [l["op"] for l in log for _ in range(l["steps_added"])]
         for k, s in enumerate(tr.steps):
+            nxt = tr.docs[k + 1] if k + 1 < len(tr.docs) else tr.doc
             if isinstance(s, SINGLE_UNDO) and declared(s, tr.docs[k]):
-                nxt = tr.docs[k + 1] if k + 1 < len(tr.docs) else tr.doc
                 undo_single(ctx, info, tr.docs[k], s, nxt, reqs, metas, "history")
+            elif isinstance(s, c04_marks.MARK_STEPS):
+                # range mark steps: the guard of their naive inverse (exact tie) and the planner theorems
+                c04_marks.single(ctx, info, tr.docs[k], s, nxt, reqs, metas, "history",
+                                 planned=k < len(owner) and owner[k] in ("add_mark", "remove_mark"))
 
     def bridge_steps(d):
         """aimed: merge two differently typed siblings through an open node of a third type that joins onto both"""
@@ -247,6 +255,11 @@ def run(ctx):
             # ---- single steps under every schema
             for _ in range(ctx.budget(20, 40)):
                 step = gen.gen_step(rng, info, d, docs)
+                if isinstance(step, c04_marks.MARK_STEPS):
+                    st, res = outcome(lambda: step.apply(d))
+                    if st == "ok" and res.doc is not None:
+                        c04_marks.single(ctx, info, d, step, res.doc, reqs, metas, "primitive")
+                    continue
                 if not isinstance(step, SINGLE_UNDO) or not declared(step, d):
                     continue
                 st, res = outcome(lambda: step.apply(d))
@@ -281,6 +294,8 @@ def run(ctx):
                         ctx.count("aimed-same-type-marks")
                         for k, s_ in enumerate(trm.steps):
                             nxt = trm.docs[k + 1] if k + 1 < len(trm.docs) else trm.doc
+                            if isinstance(s_, c04_marks.MARK_STEPS):
+                                c04_marks.single(ctx, info, trm.docs[k], s_, nxt, reqs, metas, "aimed-same-type", planned=True)
                             sti, inv_ = outcome(lambda: s_.invert(trm.docs[k]))
                             stb, back = outcome(lambda: inv_.apply(nxt)) if sti == "ok" else ("internal", None)
                             if stb != "ok" or back.doc is None or not back.doc.eq(trm.docs[k]):
@@ -292,6 +307,7 @@ def run(ctx):
                 for _ in range(2):
                     history(info, d, docs, ops.MARK_OPS, rng.randint(1, 3))
     c04_guard.aimed(ctx, rng, gen, undo_single, reqs, metas)
+    c04_marks.aimed(ctx, rng, gen, reqs, metas)
     flush()
     return ctx.finish(
         rule="a case is a single applied replace/replace-around/attr/doc-attr/node-mark step (every schema) or a history of "
